@@ -443,15 +443,18 @@ class _FaultFile:
             st['fired'] = True
             raise OSError(getattr(errno, plan['errno']), os.strerror(
                 getattr(errno, plan['errno'])))
-        if plan['kind'] == 'short_write' and st['file_no'] == plan['file'] and \
-                not st['fired'] and st['bytes'] + n > plan['at_byte']:
-            keep = max(1, plan['at_byte'] - st['bytes'])
-            st['fired'] = True
-            self._f.write(data[:keep])
-            st['bytes'] += keep
-            return keep
         st['bytes'] += n
         return self._f.write(data)
+
+    def close(self):
+        st, plan = self._state, self._plan
+        self._f.close()
+        if plan['kind'] == 'close_error' and st['file_no'] == plan['file'] \
+                and not st.get('close_fired'):
+            st['close_fired'] = True
+            st['fired'] = True
+            raise OSError(getattr(errno, plan['errno']), os.strerror(
+                getattr(errno, plan['errno'])))
 
     def __getattr__(self, a):
         return getattr(self._f, a)
@@ -460,7 +463,8 @@ class _FaultFile:
         return self
 
     def __exit__(self, *a):
-        return self._f.__exit__(*a)
+        self.close()
+        return False
 
     def __iter__(self):
         return iter(self._f)
@@ -735,7 +739,27 @@ def _execute(scn, keep_objects=False):
             elif kind == 'snapshot':
                 kw = dict(op.get('units', {}))
                 try:
-                    df = pt.snapshot(target_time=Q(U.Time, op['t']),
+                    if 'at' in op:
+                        # target relative to the recorded axis: instant
+                        # i = floor(u*(n-1)) plus fraction f of the next step
+                        u, f, tu = op['at']
+                        n = len(pt.time)
+                        i = min(int(u * (n - 1)), n - 2)
+                        if f == 0:
+                            target = U.Time(pt.time[i].value, pt.time[i].unit)
+                            if 0 < i:
+                                target = target.to(tu)
+                        else:
+                            t0, t1 = (si.obj_si(pt.time[i]),
+                                      si.obj_si(pt.time[i + 1]))
+                            target = U.Time((t0 + f * (t1 - t0)) /
+                                            si.factor('Time', tu), tu)
+                        rec['t_si'] = si.obj_si(target)
+                        rec['t_index'] = [i, f]
+                    else:
+                        target = Q(U.Time, op['t'])
+                        rec['t_si'] = si.obj_si(target)
+                    df = pt.snapshot(target_time=target,
                                      variables=op.get('vars'),
                                      print_data=False, **kw)
                     rec['df'] = df_to_dict(df)
